@@ -38,6 +38,8 @@ func checkC14(c *Ctx) {
 	c.Expect("C14-R2", 49*3)
 	c.Expect("C14-R4", 1)
 	c.Expect("C14-R5", 8)
+	c.Rule("C14-R15", "every shipped name resolves: AddTerminfo files an entry whatever it holds (no test of the entry's capabilities stands before the registry stores)")
+	c.Expect("C14-R15", 1)
 	c.Rule("C14-R14", "what a lookup returns does not depend on earlier lookups: nothing hands the result of terminfo.LookupTerminfo back to AddTerminfo (it may be a private amended copy carrying the base entry's name; only entries loaded from infocmp are registered by the wrapper)")
 	c.Expect("C14-R14", 1)
 	c.Rule("C14-R13", "NAME-256color for a known base always synthesises the standard strings: the block that sets Colors = 256 depends on the name only, not on the contents of the base entry")
@@ -77,6 +79,7 @@ func checkC14(c *Ctx) {
 		c14Registry(c, p)
 		checkSynth256Unconditional(c, p, "C14-R13")
 		checkNoReRegistration(c, p, "C14-R14")
+		checkRegistrationUnconditional(c, p, "C14-R15")
 		c14Disable(c, p)
 		c14FoundBaseIsUsed(c, p)
 		checkVetoLast(c, p, "C14-R10")
